@@ -17,11 +17,15 @@ import itertools
 
 import numpy as np
 
+from scipy import special as _special     # reference jinc only
+
 from mc import ScopeUnit, FAILED
 from mc.linalg import deltas, dense
+from mc.state import reset_executors
 
-from prysm import convolution, otf
+from prysm import convolution, otf, degredations, objects, detector
 from prysm._richdata import RichData
+from prysm.conf import config
 
 ID = 'C15'
 ASSUMPTIONS = [
@@ -30,6 +34,11 @@ ASSUMPTIONS = [
     'reported by the identity clause (one defect, one signature)',
     'transfer-function callables are represented by ten analytic functions of (fx), (fy), (fr), (ft), (fy,fx), (fr,ft), '
     '(fx,fy,fr,ft), a functools.partial and a bound method; frequency grids use dx=0.5 (implicit) and 0.25 (explicit)',
+    'the library transfer functions jitter_ft, smear_ft, pixel_ft, olpf_ft, pinhole_ft are judged against their closed forms '
+    '(gaussian, sinc products, cosine product, j1(x)/x from scipy.special) written here; slit_ft, whose closed form is not part of '
+    'the property, is represented in a product by what it returns on its own, freshly built grids',
+    'radiometric scale alphabets are decimal powers between 1e-100 and 1e100 (quick) / 1e-300 and 1e300 (thorough); the reference '
+    'is evaluated on the unscaled float64 data (the laws are homogeneous) and tolerances scale with the data',
 ]
 
 EPS = np.finfo(float).eps
@@ -336,8 +345,14 @@ def run_atf(case, seed, R):
     else:
         sig = f'atf:{conv}:array'
 
+    seq = case.get('seq', 'list')        # the container of the transfer functions: any generator-free sequence must mean the same
+    box = {'list': list, 'tuple': tuple, 'stack': lambda t: np.stack([np.asarray(x) for x in t])}[seq]
+    if seq != 'list':
+        conv += f'[tfs={seq}]'
+        sig = f'atf:{conv}:container'
+
     def call(o, tfl=tfs):
-        return convolution.apply_transfer_functions(o, DX_IMPLICIT, list(tfl), shift=flag, **kw)
+        return convolution.apply_transfer_functions(o, DX_IMPLICIT, box(tfl), shift=flag, **kw)
 
     amp = float(np.prod([max(1.0, float(np.abs(t).max())) for t in evald])) if evald else 1.0
     tol = 500 * EPS * amp
@@ -364,7 +379,7 @@ def run_atf(case, seed, R):
     o = dense(shape, seed, 5, complex_=False)
     otol = tol * float(np.abs(o).sum())
     # every array handed over explicitly, so that the call-hygiene layer sees object, transfer functions and grids
-    got = R.call(convolution.apply_transfer_functions, o.copy(), DX_IMPLICIT, list(tfs), shift=flag, sig=sig + ':exception', **kw)
+    got = R.call(convolution.apply_transfer_functions, o.copy(), DX_IMPLICIT, box(tfs), shift=flag, sig=sig + ':exception', **kw)
     want = (np.eye(N) if identity else (Aref if P is None else P @ Aref)) @ o.ravel()
     R.expect_close(got, want.reshape(shape), otol, sig, f'dense object through {names}, shift={shifted}, grid={fxmode}, {shape}')
     if len(names) == 2:
@@ -379,7 +394,11 @@ def run_atf(case, seed, R):
 # ---------------------------------------------------------------------------------------------
 # argument forms: how dx is spelled, what dtype the object has -- with CALLABLE transfer functions and no user grids
 
-DX_FORMS = {'int1': 1, 'int2': 2, 'float': 0.5, 'np.float32': np.float32(0.5), 'np.int64': np.int64(2)}
+DX_FORMS = {'int1': 1, 'int2': 2, 'float': 0.5, 'np.float32': np.float32(0.5), 'np.int64': np.int64(2),
+            'np.uint8': np.uint8(2), 'np.uint64': np.uint64(2), '0d-float': np.array(0.5), '0d-int': np.array(2)}
+DX_FORMS_FULL = ('int1', 'int2', 'float', 'np.float32', 'np.int64')              # crossed with every list of FORM_LISTS
+DX_FORMS_MORE = ('np.uint8', 'np.uint64', '0d-float', '0d-int')                  # unsigned scalars, 0-d arrays: crossed with FORM_LISTS_FEW
+FORM_LISTS_FEW = [['c_fx'], ['c_fr'], ['c_all'], ['c_fr', 'c_ft']]
 FORM_LISTS = [[nm] for nm in CALLABLES] + [['c_fx', 'c_fy'], ['c_fr', 'c_ft'], ['c_all', 'herm'], ['real', 'c_fyfx']]
 
 
@@ -428,6 +447,157 @@ def run_atf_forms(case, seed, R):
 
 
 # ---------------------------------------------------------------------------------------------
+# the library's own transfer functions, curried with functools.partial as the docstring of apply_transfer_functions says,
+# in lists of every order: one callable must not disturb the grids the next one reads
+
+def _ref_jinc(x):
+    x = np.asarray(x, dtype=float)
+    small = np.abs(x) < 1e-8
+    safe = np.where(small, 1.0, x)
+    return np.where(small, 0.5, _special.j1(safe) / safe)
+
+
+def _b(G, a, b):
+    """broadcast sum of two grids (zero-weighted) so that a separable reference has the full shape"""
+    return 0 * G[a] + 0 * G[b]
+
+
+# name -> (callable handed over, grids it reads, closed form on the reference grids or None = evaluate it alone on fresh grids)
+LIBRARY = {
+    'jitter.4': (functools.partial(degredations.jitter_ft, scale=0.4), ('fr',), lambda G: np.exp(-2 * (np.pi * 0.4 * G['fr']) ** 2)),
+    'jitter.7': (functools.partial(degredations.jitter_ft, scale=0.7), ('fr',), lambda G: np.exp(-2 * (np.pi * 0.7 * G['fr']) ** 2)),
+    'smear': (functools.partial(degredations.smear_ft, width=0.7, height=1.3), ('fx', 'fy'), lambda G: np.sinc(0.7 * G['fx']) * np.sinc(1.3 * G['fy'])),
+    'smear_x': (functools.partial(degredations.smear_ft, width=0.9, height=0), ('fx', 'fy'), lambda G: np.sinc(0.9 * G['fx']) + _b(G, 'fx', 'fy')),
+    'pixel': (functools.partial(detector.pixel_ft, width_x=0.6, width_y=1.1), ('fx', 'fy'), lambda G: np.sinc(0.6 * G['fx']) * np.sinc(1.1 * G['fy'])),
+    'olpf': (functools.partial(detector.olpf_ft, width_x=0.3, width_y=0.45), ('fx', 'fy'), lambda G: np.cos(0.6 * G['fx']) * np.cos(0.9 * G['fy'])),
+    'pinhole': (functools.partial(objects.pinhole_ft, 0.6), ('fr',), lambda G: _ref_jinc(2 * np.pi * 0.6 * G['fr'])),
+    'slit': (functools.partial(objects.slit_ft, 0.8, 1.1), ('fx', 'fy'), None),
+}
+# user callables reading each grid on its own (to see a grid disturbed by the entry before them) and one array
+LIB_READERS = ('c_fx', 'c_fy', 'c_fr', 'c_ft', 'herm')
+LIB_POOL = tuple(LIBRARY) + LIB_READERS
+LIB_TRIPLES = (('jitter.4', 'pinhole', 'c_fr'), ('smear', 'pixel', 'c_fx'))
+LIB_TRIPLES_THOROUGH = (('jitter.7', 'c_frft', 'jitter.4'), ('olpf', 'slit', 'c_fy'), ('smear_x', 'jitter.4', 'c_all'))
+
+
+def resolve_tf(nm, shape, seed, shifted, G):
+    """-> (what is handed to the implementation, its value on the reference grids, the grids it reads)."""
+    if nm in CALLABLES:
+        f, args = CALLABLES[nm]
+        return f, np.broadcast_to(f(*[G[a].copy() for a in args]), shape), args
+    if nm in LIBRARY:
+        f, args, ref = LIBRARY[nm]
+        val = ref(G) if ref is not None else f(**{a: G[a].copy() for a in args})
+        return f, np.broadcast_to(np.asarray(val), shape), args
+    t = tf_array(nm, shape, seed, shifted)
+    return t, t, ()
+
+
+def run_atf_lib(case, seed, R):
+    prec = case['precision']
+    config.precision = prec
+    try:
+        _run_atf_lib(case, seed, R)
+    finally:
+        config.precision = 64
+
+
+def _run_atf_lib(case, seed, R):
+    n0, n1, names, shifted, fxmode, prec = case['n0'], case['n1'], case['tfs'], case['shift'], case['grid'], case['precision']
+    shape = (n0, n1)
+    N = n0 * n1
+    conv = 'shift' if shifted else 'noshift'
+    if fxmode == 'omitted':
+        d = DX_IMPLICIT
+        kw = {}
+    else:
+        d = DX_EXPLICIT
+        fx1, fy1 = freq_axis(n1, d, shifted), freq_axis(n0, d, shifted)
+        if fxmode == '2d':
+            fx2, fy2 = np.meshgrid(fx1, fy1)
+            kw = {'fx': fx2, 'fy': fy2}
+        else:
+            kw = {'fx': fx1, 'fy': fy1}
+    G = ref_grids(shape, d, shifted)
+    tfs, evald, reads = [], [], set()
+    for nm in names:
+        f, val, args = resolve_tf(nm, shape, seed, shifted, G)
+        tfs.append(f)
+        evald.append(val)
+        reads |= set(args)
+    Tprod = np.ones(shape, dtype=complex)
+    for t in evald:
+        Tprod = Tprod * t
+    kind = 'polar' if reads <= {'fr', 'ft'} else 'cart' if reads <= {'fx', 'fy'} else 'mixed'
+    sig = f'atf:{conv}:library:{fxmode}:{kind}' + ('' if prec == 64 else ':precision32')
+    # with config.precision = 32 the implicit grids are single precision (documented); user grids stay float64
+    eps = float(np.finfo(np.float32).eps) if prec == 32 else EPS
+    amp = float(np.prod([max(1.0, float(np.abs(t).max())) for t in evald]))
+    tol = 500 * eps * amp
+    Aref = ref_operator(Tprod, shape, shifted)
+    what = f'{names}, shift={shifted}, grid={fxmode}, precision={prec}, {shape}'
+    o = dense(shape, seed, 5, complex_=False)
+    otol = tol * float(np.abs(o).sum())
+    # (the call-hygiene variants of apply_transfer_functions run in unit atf for every one of these shapes; here only the caller's
+    # grids are watched: a transfer function that writes into fx / fy changes the user's arrays)
+    snap = {k: v.copy() for k, v in kw.items()}
+    got = R.call(convolution.apply_transfer_functions, o.copy(), DX_IMPLICIT, list(tfs), shift=shifted, sig=sig + ':exception', hygiene=False, **kw)
+    for k in kw:
+        R.expect(np.array_equal(kw[k], snap[k]), f'atf:{conv}:library:user-grid-mutated', f'apply_transfer_functions with {what} changed the {k} array of the caller')
+    ok = R.expect_close(got, (Aref @ o.ravel()).reshape(shape), otol, sig, f'dense object through the list {what} vs explicit-DFT reference with the PRODUCT of the transfer functions, each on its own grid')
+    one = R.call(convolution.apply_transfer_functions, o.copy(), DX_IMPLICIT, [Tprod], shift=shifted, sig=sig + ':exception', hygiene=False, **snap)
+    if ok and one is not FAILED and np.asarray(one).shape == shape:
+        R.expect_close(got, np.asarray(one), 2 * otol, sig, f'list != its product handed over as one array: {what}')
+    R.nontrivial(N > 1)
+    R.outcome(f'{kind}:{conv}:{len(names)}')
+
+
+# the library transfer functions called directly: value against the closed form, and (hygiene layer) the caller's grids untouched
+TF_DIRECT = {
+    'jitter_ft': (degredations.jitter_ft, ('fr',), {'scale': 0.4}, lambda G: np.exp(-2 * (np.pi * 0.4 * G['fr']) ** 2)),
+    'smear_ft': (degredations.smear_ft, ('fx', 'fy'), {'width': 0.7, 'height': 1.3}, lambda G: np.sinc(0.7 * G['fx']) * np.sinc(1.3 * G['fy'])),
+    'smear_ft:x': (degredations.smear_ft, ('fx', 'fy'), {'width': 0.9, 'height': 0}, lambda G: np.sinc(0.9 * G['fx'])),
+    'smear_ft:y': (degredations.smear_ft, ('fx', 'fy'), {'width': 0, 'height': 0.9}, lambda G: np.sinc(0.9 * G['fy'])),
+    'pixel_ft': (detector.pixel_ft, ('fx', 'fy'), {'width_x': 0.6, 'width_y': 1.1}, lambda G: np.sinc(0.6 * G['fx']) * np.sinc(1.1 * G['fy'])),
+    'olpf_ft': (detector.olpf_ft, ('fx', 'fy'), {'width_x': 0.3, 'width_y': 0.45}, lambda G: np.cos(0.6 * G['fx']) * np.cos(0.9 * G['fy'])),
+    'pinhole_ft': (objects.pinhole_ft, ('fr',), {'radius': 0.6}, lambda G: _ref_jinc(2 * np.pi * 0.6 * G['fr'])),
+}
+
+
+def run_tf_direct(case, seed, R):
+    prec = case['precision']
+    config.precision = prec
+    try:
+        n0, n1, name, shifted, layout, dt = case['n0'], case['n1'], case['tf'], case['shift'], case['layout'], case['dtype']
+        shape = (n0, n1)
+        f, args, params, ref = TF_DIRECT[name]
+        G = ref_grids(shape, DX_IMPLICIT, shifted)           # fx: (1, n1) row, fy: (n0, 1) column, fr / ft: full
+        want = ref(G)
+        if layout == 'grid':
+            given = {a: np.ascontiguousarray(np.broadcast_to(G[a], shape)).astype(dt) for a in args}
+        else:                                                # 'separable': broadcastable row / column, as apply_transfer_functions hands them
+            given = {a: G[a].astype(dt) for a in args}
+        snap = {a: v.copy() for a, v in given.items()}
+        eps = float(np.finfo(np.float32).eps) if (prec == 32 or dt == 'float32') else EPS
+        sig = f'{name.split(":")[0]}:value' + ('' if (prec == 64 and dt == 'float64') else ':single')
+        got = R.call(f, sig=sig + ':exception', **given, **params)
+        if got is not FAILED:
+            try:
+                full = np.broadcast_to(np.asarray(got), shape)       # a separable answer (row / column) stands for the full grid
+            except Exception:   # noqa
+                full = got
+            # |d sinc| <= pi, |d jinc| <= 1, exponent of the gaussian <= 2 (pi 0.4 sqrt2)^2 ~ 6.3: 64 eps covers single-precision grids
+            R.expect_close(full, np.broadcast_to(want, shape), 64 * eps, sig,
+                           f'{name}({", ".join(args)}; {params}) on {layout} {dt} grids of {shape}, shift={shifted}, precision={prec} vs closed form')
+        for a in args:
+            R.expect(np.array_equal(given[a], snap[a]), f'{name.split(":")[0]}:input-mutated', f'{name} changed the {a} array it was given ({layout}, {dt}, precision={prec})')
+        R.nontrivial(n0 * n1 > 1)
+        R.outcome(f'{name}:{dt}:{prec}')
+    finally:
+        config.precision = 64
+
+
+# ---------------------------------------------------------------------------------------------
 # MTF / PTF / OTF
 
 def ref_otf(psf):
@@ -439,7 +609,9 @@ def ref_otf(psf):
     return (W0 @ psf @ W1.T) / psf.sum()
 
 
-def check_psf(R, psf, dx, form, label, s):
+def check_psf(R, psf, dx, form, label, s, eps=EPS, content=None, want=None, exact_dc=True, hygiene=True):
+    """content: float64 array proportional to psf on which the reference is evaluated (the laws are homogeneous); default psf itself.
+    want: the reference OTF itself, where a closed form exists (sums of impulses at sizes too large for DFT matrices)"""
     shape = psf.shape
     n0, n1 = shape
     o = (n0 // 2, n1 // 2)
@@ -447,11 +619,12 @@ def check_psf(R, psf, dx, form, label, s):
         a = (psf.copy(), dx)
     else:
         a = (RichData(data=psf.copy(), dx=dx, wavelength=None),)
-    m = R.call(otf.mtf_from_psf, *a)
-    p = R.call(otf.ptf_from_psf, *a)
-    t = R.call(otf.otf_from_psf, *a)
-    want = ref_otf(psf)
-    tol = 256 * EPS * max(1.0, max(shape) / 16)
+    m = R.call(otf.mtf_from_psf, *a, hygiene=hygiene)
+    p = R.call(otf.ptf_from_psf, *a, hygiene=hygiene)
+    t = R.call(otf.otf_from_psf, *a, hygiene=hygiene)
+    if want is None:
+        want = ref_otf(np.asarray(psf if content is None else content, dtype=float))
+    tol = 256 * eps * max(1.0, max(shape) / 16)
     M = P = T = None
     if m is not FAILED:
         M = getattr(m, 'data', None)
@@ -481,7 +654,8 @@ def check_psf(R, psf, dx, form, label, s):
             okp = False
         if R.expect(okp, f'ptf:range:{s}', f'PTF is not a real array of {shape} within [-pi, pi] (radians) for {label}'):
             R.expect_close(np.abs(want) * np.exp(1j * P), want, tol, f'ptf:value:{s}', f'|OTF_ref| exp(i PTF) vs OTF_ref for {label} ({form})')
-            R.expect(P[o] == 0.0, f'ptf:dc:{s}', f'PTF at zero frequency is {P[o]!r}')
+            # (x/x of a complex DC sample with a rounding-sized imaginary part, as Bluestein-length FFTs leave it, is 1 only to an ulp)
+            R.expect(P[o] == 0.0 if exact_dc else abs(P[o]) <= tol, f'ptf:dc:{s}', f'PTF at zero frequency is {P[o]!r}')
         else:
             P = None
     if M is not None and P is not None and T is not None:
@@ -647,6 +821,238 @@ def run_mtf_large(case, seed, R):
 
 
 # ---------------------------------------------------------------------------------------------
+# blocking thresholds: element counts just above a power of two (work split in blocks of 2^7 .. 2^20 and the tail dropped).
+# NOT closed over the data dimension.  References are O(N): sums of weighted impulses have closed forms for every law.
+
+def threshold_shapes(tier):
+    out = []
+    for k in range(7, 17):
+        for n in (2 ** k + 1, 2 ** k + 2 ** (k - 1) + 3):
+            out += [(n, 1), (1, n)]
+    out += [(129, 3), (3, 130), (150, 150), (181, 182), (300, 300), (257, 1030), (1030, 1025)]     # the last one has > 2^20 elements (a camera frame)
+    if tier != 'quick':
+        out += [(2 ** k + 1, 3) for k in range(8, 15)] + [(513, 514), (1025, 1025), (2049, 515)]
+    return out
+
+
+def probe_points(shape):
+    """impulse positions: the corners, the origin sample and its neighbour, the last sample, one sample just past half of the buffer"""
+    n0, n1 = shape
+    N = n0 * n1
+    ks = [0, N - 1, (n0 // 2) * n1 + n1 // 2, ((n0 // 2 + 1) % n0) * n1 + (n1 // 2 + 1) % n1, (N // 2 + 1) % N, N - 2 if N > 2 else 0]
+    out = []
+    for k in ks:
+        if k not in out:
+            out.append(k)
+    return out
+
+
+def otf_of_impulses(shape, pts, w):
+    """closed-form OTF of sum_i w_i delta_{p_i}: sum_i w_i exp(-2 pi i ((k0-o0)(p0-o0)/n0 + (k1-o1)(p1-o1)/n1)) / sum w, exact integer phase reduction"""
+    n0, n1 = shape
+    k0 = np.arange(n0, dtype=np.int64) - n0 // 2
+    k1 = np.arange(n1, dtype=np.int64) - n1 // 2
+    acc = np.zeros(shape, dtype=complex)
+    for k, wi in zip(pts, w):
+        p0, p1 = divmod(k, n1)
+        e0 = np.exp(-2j * np.pi * ((k0 * (p0 - n0 // 2)) % n0) / n0)
+        e1 = np.exp(-2j * np.pi * ((k1 * (p1 - n1 // 2)) % n1) / n1)
+        acc += wi * np.outer(e0, e1)
+    return acc / float(np.sum(w))
+
+
+def run_threshold(case, seed, R):
+    n0, n1 = case['n0'], case['n1']
+    shape = (n0, n1)
+    N = n0 * n1
+    o0, o1 = n0 // 2, n1 // 2
+    s = 'threshold:' + pp(shape)
+    pts = probe_points(shape)
+    w = [1.0 + 0.5 * i for i in range(len(pts))]
+    n2 = lambda x: float(np.sqrt((x ** 2).sum()))   # noqa
+    a = dense(shape, seed, 90, complex_=False)
+    lg = max(1.0, np.log2(N))
+    # conv: a dense object with a PSF made of weighted impulses == the weighted sum of cyclic translations of the object, EVERY element
+    h = np.zeros(shape)
+    want = np.zeros(shape)
+    for k, wi in zip(pts, w):
+        p0, p1 = divmod(k, n1)
+        h[p0, p1] += wi
+        want += wi * np.roll(a, (p0 - o0, p1 - o1), axis=(0, 1))
+    tol = 64 * lg * EPS * n2(a) * n2(h)
+    small = N <= 2 ** 18          # the camera-frame sized cases are kept cheap: one call per routine, no call-hygiene variants
+    got = R.call(convolution.conv, a.copy(), h.copy(), hygiene=small)
+    if R.expect_close(got, want, tol, f'conv:{s}', f'conv(dense, {len(pts)} weighted impulses) vs the sum of cyclic translations, {shape}'):
+        R.expect_close(np.asarray(got).sum(), a.sum() * h.sum(), 64 * lg * EPS * np.abs(a).sum() * h.sum(), f'conv:{s}:energy', 'sum(conv(a,h)) != sum(a) sum(h)')
+    if small:
+        got = R.call(convolution.conv, h.copy(), a.copy(), hygiene=False)
+        R.expect_close(got, want, tol, f'conv:{s}', f'conv({len(pts)} weighted impulses, dense) (commuted), {shape}')
+        # impulse identity on the dense object
+        got = R.call(convolution.conv, a.copy(), delta(shape, o0 * n1 + o1), hygiene=False)
+        R.expect_close(got, a, 64 * lg * EPS * n2(a), f'conv:{s}:identity', f'conv(a, delta at the origin sample) != a, {shape}')
+    # MTF / PTF / OTF of the impulse sum (closed form) and of single impulses at the first / last sample
+    check_psf(R, h, 0.5, 'array', f'{len(pts)} weighted impulses in {shape}', s, eps=EPS * lg / 4, want=otf_of_impulses(shape, pts, w), exact_dc=False, hygiene=small)
+    for k in ((0, N - 1) if small else ()):
+        check_psf(R, 2.0 * delta(shape, k), 0.5, 'richdata', f'2*delta{divmod(k, n1)} in {shape}', s, eps=EPS * lg / 4, want=otf_of_impulses(shape, [k], [2.0]), exact_dc=False)
+    # apply_transfer_functions: impulse-sum object through [real array, callable of fr]; the spectrum of the object is the closed form above
+    for shifted in ((True, False) if small else (True,)):
+        G = ref_grids(shape, DX_IMPLICIT, shifted)
+        T = (1 + 0.25 * np.cos(np.arange(N, dtype=float)).reshape(shape))           # real array, in the convention of the case as it is
+        f, args = CALLABLES['c_fr']
+        Tc = T * f(G['fr'])
+        if shifted:
+            # centred spectrum of the object (origin at sample n//2 in both domains) in closed form, inverted with numpy's pocketfft
+            O = otf_of_impulses(shape, pts, w) * float(np.sum(w))
+            spec = np.roll(Tc * O, (-o0, -o1), axis=(0, 1))
+            want_img = np.roll(np.fft.ifft2(spec), (o0, o1), axis=(0, 1)).real
+        else:
+            # unshifted convention (origin at sample [0,0] in both domains): numpy's FFT both ways
+            want_img = np.fft.ifft2(Tc * np.fft.fft2(h)).real
+        conv = 'shift' if shifted else 'noshift'
+        got = R.call(convolution.apply_transfer_functions, h.copy(), DX_IMPLICIT, [T, f], shift=shifted, sig=f'atf:{conv}:{s}:exception', hygiene=small)
+        R.expect_close(got, want_img, 64 * lg * EPS * 1.25 * n2(h), f'atf:{conv}:{s}', f'{len(pts)} weighted impulses through [real array, callable of fr], shift={shifted}, {shape}')
+        if small:
+            got = R.call(convolution.apply_transfer_functions, a.copy(), DX_IMPLICIT, [np.ones(shape), np.ones(shape)], shift=shifted, sig=f'atf:{conv}:{s}:exception', hygiene=False)
+            R.expect_close(got, a, 64 * lg * EPS * n2(a), f'atf:{conv}:{s}:identity', f'all-ones transfer functions are not the identity on a dense object, shift={shifted}, {shape}')
+    R.nontrivial(True)
+    R.outcome('threshold')
+
+
+# ---------------------------------------------------------------------------------------------
+# radiometric scale (the laws are homogeneous) and PSF dtype alphabets
+
+SCALES_QUICK = (1e-100, 1e-30, 1e-20, 1e-15, 1e-8, 1e-3, 1e3, 1e8, 1e12, 1e15, 1e30, 1e100)
+SCALES_THOROUGH = (1e-300, 1e-200) + SCALES_QUICK + (1e200, 1e300)
+SCALES_F32 = (1e-30, 1e-15, 1e-8, 1e8, 1e15, 1e30)       # inside the range of float32
+CONV_SCALES = (1e-100, 1e-20, 1e-15, 1e-8, 1.0, 1e8, 1e12, 1e15, 1e100)
+TF_SCALES = (1e-100, 1e-15, 1.0, 1e15, 1e100)
+# shapes of every parity class and with a degenerate axis, for the grid / precision variants of unit atf_library
+LIB_VARIANT_SHAPES = ((1, 2), (2, 1), (2, 2), (2, 3), (3, 2), (3, 3), (4, 5), (5, 4))
+
+
+def scale_tag(c):
+    return 'small' if c < 1 else 'large'
+
+
+def run_mtf_scale(case, seed, R):
+    n0, n1, c, dt = case['n0'], case['n1'], case['scale'], case['dtype']
+    shape = (n0, n1)
+    N = n0 * n1
+    s = f'scale-{scale_tag(c)}:{pp(shape)}' + ('' if dt == 'float64' else f':{dt}')
+    eps = EPS if dt == 'float64' else float(np.finfo(np.float32).eps)
+    dx = 0.5
+    # every unit impulse (|OTF| == 1 everywhere with a genuine linear phase), in the units of the scale
+    for k in range(N):
+        base = delta(shape, k)
+        check_psf(R, (c * base).astype(dt), dx, 'array', f'{c:g} * delta{divmod(k, n1)} ({dt}) in {shape}', s, eps=eps, content=base)
+    for salt in (0, 2):
+        base = np.abs(dense(shape, seed, 20 + salt, complex_=False))
+        if salt == 2:
+            base[base < 0.8] = 0.0
+            base[n0 // 2, n1 // 2] += 0.5
+        # unit energy times the scale ("total energy c"), and O(1) samples times the scale
+        for b, lab in ((base / base.sum(), 'unit-energy'), (base, 'O(1)')):
+            psf = (c * b).astype(dt)
+            for form in ('array', 'richdata'):
+                check_psf(R, psf, dx, form, f'{c:g} * {lab} dense non-negative (salt {salt}, {dt}) {shape}', s, eps=eps, content=b)
+    R.nontrivial(N > 1)
+    R.outcome(f'{scale_tag(c)}:{dt}')
+
+
+PSF_DTYPES = ('float32', 'bool', 'uint8', 'uint16', 'int32', 'int64', 'uint64')
+
+
+def run_mtf_dtype(case, seed, R):
+    n0, n1, dt = case['n0'], case['n1'], case['dtype']
+    shape = (n0, n1)
+    N = n0 * n1
+    s = f'dtype-{dt}:{pp(shape)}'
+    eps = float(np.finfo(np.float32).eps) if dt == 'float32' else EPS
+    top = {'float32': 1.5, 'bool': True, 'uint8': 255, 'uint16': 65535, 'int32': 2 ** 31 - 1, 'int64': 2 ** 40, 'uint64': 2 ** 40}[dt]
+    for k in range(N):
+        d = np.zeros(shape, dtype=dt)
+        d.flat[k] = top
+        check_psf(R, d, 0.5, 'array', f'impulse {divmod(k, n1)} of dtype {dt} in {shape}', s, eps=eps)
+    g = np.abs(dense(shape, seed, 24, complex_=False))
+    if dt == 'bool':
+        psf = g > 0.6
+        psf.flat[0] = True
+    elif dt == 'float32':
+        psf = g.astype(dt)
+    else:
+        psf = np.floor(g / g.max() * min(top, 65535)).astype(dt)      # camera counts
+        psf.flat[N - 1] = max(int(psf.flat[N - 1]), 1)
+    for form in ('array', 'richdata'):
+        check_psf(R, psf, 0.5, form, f'dense non-negative {dt} frame {shape}', s, eps=eps)
+    R.nontrivial(N > 1)
+    R.outcome(dt)
+
+
+def run_conv_scale(case, seed, R):
+    n0, n1, ca, cb = case['n0'], case['n1'], case['obj'], case['psf']
+    shape = (n0, n1)
+    N = n0 * n1
+    o = (n0 // 2, n1 // 2)
+    a0 = dense(shape, seed, 80, complex_=False)
+    b0 = np.abs(dense(shape, seed, 81, complex_=False))
+    b0 /= b0.sum()                                            # PSF of unit energy, in the units of its scale
+    n2 = lambda x: float(np.sqrt((x ** 2).sum()))   # noqa
+    cc = ca * cb
+    sig = f'conv:scale:{"equal" if ca == cb else "obj>psf" if ca > cb else "obj<psf"}'
+    a, b = ca * a0, cb * b0
+    tol = 200 * EPS * n2(a0) * n2(b0) * cc
+    want = ref_conv(a0, b0) * cc
+    ab = R.call(convolution.conv, a.copy(), b.copy())
+    if R.expect_close(ab, want, tol, sig, f'conv({ca:g}*a, {cb:g}*h) vs {cc:g} * brute-force cyclic sum of the O(1) pair, {shape}'):
+        R.expect_close(np.asarray(ab).sum(), cc * (a0.sum() * b0.sum()), 200 * EPS * cc * np.abs(a0).sum() * np.abs(b0).sum(), sig, 'energy product of the scaled pair')
+    ba = R.call(convolution.conv, b.copy(), a.copy(), hygiene=False)
+    R.expect_close(ba, want, tol, sig, f'conv({cb:g}*h, {ca:g}*a) (commuted) vs reference, {shape}')
+    # scaled impulse at the origin / at the last sample: identity and translation in the units of the data
+    for p in sorted({o[0] * n1 + o[1], N - 1}):
+        pi, pj = divmod(p, n1)
+        got = R.call(convolution.conv, a.copy(), cb * delta(shape, p), hygiene=False)
+        R.expect_close(got, cc * np.roll(a0, (pi - o[0], pj - o[1]), axis=(0, 1)), 200 * EPS * n2(a0) * cc, sig,
+                       f'conv({ca:g}*a, {cb:g}*delta{(pi, pj)}) must be {cc:g} * a translated by {(pi - o[0], pj - o[1])}, {shape}')
+    R.nontrivial(True)
+    R.outcome(sig)
+
+
+ATF_SCALE_LISTS = (['herm'], ['c_fr'], ['real', 'c_fx'], ['jitter.4', 'pixel'])
+
+
+def run_atf_scale(case, seed, R):
+    n0, n1, names, shifted, co, ct = case['n0'], case['n1'], case['tfs'], case['shift'], case['obj'], case['tf']
+    shape = (n0, n1)
+    N = n0 * n1
+    conv = 'shift' if shifted else 'noshift'
+    G = ref_grids(shape, DX_IMPLICIT, shifted)
+    tfs, evald = [], []
+    for i, nm in enumerate(names):
+        f, val, _ = resolve_tf(nm, shape, seed, shifted, G)
+        if i == 0 and not callable(f):
+            f = ct * f                                       # the transfer-function ARRAY carries the scale ct (the map is bilinear)
+        tfs.append(f)
+        evald.append(val)
+    scaled_tf = not callable(tfs[0])
+    Tprod = np.ones(shape, dtype=complex)
+    for t in evald:
+        Tprod = Tprod * t
+    Aref = ref_operator(Tprod, shape, shifted)
+    cc = co * (ct if scaled_tf else 1.0)
+    sig = f'atf:{conv}:scale'
+    amp = float(np.prod([max(1.0, float(np.abs(t).max())) for t in evald]))
+    o0 = dense(shape, seed, 5, complex_=False)
+    tol = 500 * EPS * amp * float(np.abs(o0).sum()) * cc
+    got = R.call(convolution.apply_transfer_functions, co * o0, DX_IMPLICIT, list(tfs), shift=shifted, sig=sig + ':exception', hygiene=False)
+    R.expect_close(got, cc * (Aref @ o0.ravel()).reshape(shape), tol, sig,
+                   f'{co:g} * dense object through {names} (array scaled by {ct if scaled_tf else 1:g}), shift={shifted}, {shape} vs {cc:g} * reference of the O(1) data')
+    got = R.call(convolution.apply_transfer_functions, co * delta(shape, N - 1), DX_IMPLICIT, list(tfs), shift=shifted, sig=sig + ':exception', hygiene=False)
+    R.expect_close(got, cc * Aref[:, N - 1].reshape(shape), 500 * EPS * amp * cc, sig, f'{co:g} * last unit impulse through {names}, shift={shifted}, {shape}')
+    R.nontrivial(N > 1)
+    R.outcome(f'{scale_tag(co)}:{conv}')
+
+
+# ---------------------------------------------------------------------------------------------
 
 def plan(tier, seed):
     B = 5 if tier == 'quick' else 7
@@ -668,7 +1074,33 @@ def plan(tier, seed):
                        for l in (['ones'], ['herm'], ['c_fr'], ['real', 'c_fx']) for sh in (True, False)]
     # dx forms on float64 objects, object dtypes with dx = python int 2 and float: the two alphabets are crossed with every list, shape, convention
     form_cases = [{'n0': a, 'n1': b, 'tfs': l, 'shift': sh, 'dx': dxf, 'dtype': dt} for a, b in shapes for l in FORM_LISTS for sh in (True, False)
-                  for dxf, dt in [(d, 'float64') for d in DX_FORMS] + [(d, t) for d in ('int2', 'float') for t in OBJ_DTYPES if t != 'float64']]
+                  for dxf, dt in [(d, 'float64') for d in DX_FORMS_FULL] + [(d, t) for d in ('int2', 'float') for t in OBJ_DTYPES if t != 'float64']]
+    form_cases += [{'n0': a, 'n1': b, 'tfs': l, 'shift': sh, 'dx': dxf, 'dtype': 'float64'} for a, b in shapes for l in FORM_LISTS_FEW for sh in (True, False) for dxf in DX_FORMS_MORE]
+    # the container of the transfer functions: tuple (any list of length <= 1, three pairs), 3-D ndarray stack (arrays only)
+    seq_pairs = [['c_fx', 'c_fy'], ['real', 'herm'], ['c_all', 'herm']]
+    flag_cases += [{'n0': a, 'n1': b, 'tfs': l, 'shift': sh, 'grid': 'omitted', 'seq': 'tuple'}
+                   for a, b in shapes for l in [x for x in lists if len(x) <= 1] + seq_pairs for sh in (True, False)]
+    flag_cases += [{'n0': a, 'n1': b, 'tfs': l, 'shift': sh, 'grid': 'omitted', 'seq': 'stack'}
+                   for a, b in shapes for l in [[x] for x in ARRAYS] + [['real', 'herm'], ['ones', 'ones']] for sh in (True, False)]
+    # library transfer functions: every single entry and EVERY ordered pair of the pool, a few triples in every order
+    triples = LIB_TRIPLES + (LIB_TRIPLES_THOROUGH if tier != 'quick' else ())
+    lib_lists = [[a] for a in LIB_POOL] + [[a, b] for a in LIB_POOL for b in LIB_POOL] + [list(t) for tr in triples for t in itertools.permutations(tr)]
+    lib_lists = [l for l in lib_lists if any(nm in LIBRARY for nm in l)]
+    lib_cases = [{'n0': a, 'n1': b, 'tfs': l, 'shift': sh, 'grid': 'omitted', 'precision': 64} for a, b in shapes for l in lib_lists for sh in (True, False)]
+    lib_cases += [{'n0': a, 'n1': b, 'tfs': l, 'shift': sh, 'grid': g, 'precision': pr}
+                  for a, b in (LIB_VARIANT_SHAPES if tier == 'quick' else shapes) for l in lib_lists
+                  for sh in (True, False) for g, pr in (('2d', 64), ('1d', 64), ('omitted', 32))]
+    direct_cases = [{'n0': a, 'n1': b, 'tf': nm, 'shift': sh, 'layout': lay, 'dtype': dt, 'precision': pr}
+                    for a, b in shapes for nm in TF_DIRECT for sh in (True, False) for lay in ('grid', 'separable')
+                    for dt, pr in (('float64', 64), ('float32', 64), ('float64', 32), ('float32', 32))]
+    scales = SCALES_QUICK if tier == 'quick' else SCALES_THOROUGH
+    mtf_scale_cases = [{'n0': a, 'n1': b, 'scale': c, 'dtype': 'float64'} for a, b in shapes for c in scales]
+    mtf_scale_cases += [{'n0': a, 'n1': b, 'scale': c, 'dtype': 'float32'} for a, b in shapes for c in SCALES_F32]
+    mtf_dtype_cases = [{'n0': a, 'n1': b, 'dtype': dt} for a, b in shapes for dt in PSF_DTYPES]
+    conv_scale_cases = [{'n0': a, 'n1': b, 'obj': ca, 'psf': cb} for a, b in shapes for ca in CONV_SCALES for cb in CONV_SCALES if (ca, cb) != (1.0, 1.0)]
+    atf_scale_cases = [{'n0': a, 'n1': b, 'tfs': l, 'shift': sh, 'obj': co, 'tf': ct}
+                       for a, b in shapes for l in ATF_SCALE_LISTS for sh in (True, False) for co in CONV_SCALES
+                       for ct in (TF_SCALES if l[0] in ARRAYS else (1.0,)) if (co, ct) != (1.0, 1.0)]
     mtf_cases = [{'n0': a, 'n1': b, 'kind': 'single'} for a, b in shapes]
     mtf_cases += [{'n0': a, 'n1': b, 'kind': 'pair', 'p': p} for a, b in shapes for p in range(a * b - 1)]
     mtf_cases += [{'n0': a, 'n1': b, 'kind': 'dense', 'salt': k} for a, b in shapes for k in (0, 1, 2)]
@@ -688,10 +1120,12 @@ def plan(tier, seed):
                   'operator matrix over every unit impulse vs explicit-DFT reference with the TFs evaluated on the grid of the stated convention; '
                   'all-ones/empty list == identity; dense object; list == product (implementation against itself)'),
         ScopeUnit('atf_flag_forms', flag_cases, run_atf,
-                  f'every shape in [1..{B}]^2 x ALL lists of length <= 1 from the pool x grids x the shift flag spelled np.bool_(True/False) and 1/0: judged exactly like shift=True/False'),
+                  f'every shape in [1..{B}]^2 x ALL lists of length <= 1 from the pool x grids x the shift flag spelled np.bool_(True/False) and 1/0: judged exactly like shift=True/False; '
+                  'and the transfer functions handed over in a tuple (every list of length <= 1, pairs [c_fx,c_fy],[real,herm],[c_all,herm]) or as a 3-D ndarray stack (arrays only: singles, [real,herm],[ones,ones]) '
+                  'x shift, grids omitted: judged exactly like the list'),
         ScopeUnit('atf_forms', form_cases, run_atf_forms,
                   f'callable transfer functions without user grids: every shape in [1..{B}]^2 x lists {{every single callable of (fx),(fy),(fr),(ft),(fy,fx),(fr,ft),(fx,fy,fr,ft), partial, method; 4 mixed pairs}} x shift x '
-                  '(dx spelled as python int 1, 2, float 0.5, np.float32(0.5), np.int64(2) with float64 objects; object dtype {bool, uint8, uint16, int32, float32} with dx in {2, 0.5}): corner / centre / last impulses and one dense object of that dtype; '
+                  '(dx spelled as python int 1, 2, float 0.5, np.float32(0.5), np.int64(2) with float64 objects; dx spelled np.uint8(2), np.uint64(2), 0-d arrays array(0.5), array(2) with the lists [c_fx],[c_fr],[c_all],[c_fr,c_ft]; object dtype {bool, uint8, uint16, int32, float32} with dx in {2, 0.5}): corner / centre / last impulses and one dense object of that dtype; '
                   'oracle: explicit-DFT reference with the callables evaluated on the grid of the stated convention, and list == the same product as one array'),
         ScopeUnit('mtf', mtf_cases, run_mtf,
                   f'every shape in [1..{B}]^2: PSF = EVERY unit impulse (array and RichData form), EVERY pair of impulses with weights {{1,3}}, '
@@ -701,6 +1135,36 @@ def plan(tier, seed):
                   f'histories on ONE ndarray, every shape in [2..{B}]-sized grids x ordered pair (first, second) in {{mtf,ptf,otf}}^2 x form {{array, RichData wrapping the array}} x '
                   '{unmodified, next frame assigned in place, pedestal subtracted in place, rolled in place, another array transformed in between then assigned}: '
                   'the second call must answer for the CURRENT contents of the buffer (fresh explicit-DFT reference)'),
+        ScopeUnit('atf_library', lib_cases, run_atf_lib,
+                  f'the library\'s own transfer functions curried with functools.partial (jitter_ft at two scales, smear_ft with both / one width, pixel_ft, olpf_ft, pinhole_ft, slit_ft) together with '
+                  f'user callables reading fx, fy, fr, ft on their own and one Hermitian array: every shape in [1..{B}]^2 x EVERY single entry and EVERY ORDERED PAIR of that pool of {len(LIB_POOL)} that contains a library function, '
+                  f'plus every order of {len(triples)} triples, x shift, grids omitted at config.precision 64; and x (user grids 2-D / 1-D at precision 64; grids omitted at config.precision 32) on '
+                  + ('the shapes (1,2),(2,1),(2,2),(2,3),(3,2),(3,3),(4,5),(5,4) (every parity class, degenerate axes)' if tier == 'quick' else 'every shape') +
+                  ': dense object against the explicit-DFT reference with the PRODUCT of the closed forms, each on its own reference grid; list == product handed over as one array; the user\'s grids unchanged afterwards',
+                  reset=reset_executors),
+        ScopeUnit('tf_direct', direct_cases, run_tf_direct,
+                  f'jitter_ft, smear_ft (both widths, width only, height only), pixel_ft, olpf_ft, pinhole_ft called directly: every shape in [1..{B}]^2 x shift x grids given as full 2-D arrays or as broadcastable row / column x '
+                  'grid dtype {float64, float32} x config.precision {64, 32}: value against the closed form (eps of single precision where it takes part), and the grids handed in are unchanged afterwards',
+                  reset=reset_executors),
+        ScopeUnit('mtf_scale', mtf_scale_cases, run_mtf_scale,
+                  f'radiometric scale alphabet (MTF / PTF / OTF do not depend on the units of the PSF): every shape in [1..{B}]^2 x scale {{{", ".join(f"{c:g}" for c in scales)}}} (float64) and '
+                  f'{{{", ".join(f"{c:g}" for c in SCALES_F32)}}} (float32) x PSF = scale * {{EVERY unit impulse; dense and sparse non-negative arrays of unit energy and with O(1) samples, array and RichData form}}: '
+                  'all clauses of unit mtf against the explicit-DFT reference of the UNSCALED data, tolerances unchanged (they are relative to MTF = 1)'),
+        ScopeUnit('mtf_dtype', mtf_dtype_cases, run_mtf_dtype,
+                  f'PSF dtype alphabet {{{", ".join(PSF_DTYPES)}}} (camera frames, masks): every shape in [1..{B}]^2 x EVERY unit impulse at the top of the range and one dense frame (array and RichData form): all clauses of unit mtf '
+                  'against the float64 reference (eps of float32 for a float32 PSF)'),
+        ScopeUnit('conv_scale', conv_scale_cases, run_conv_scale,
+                  f'conv is bilinear: every shape in [1..{B}]^2 x object scale x PSF scale in {{{", ".join(f"{c:g}" for c in CONV_SCALES)}}}^2 (object O(1) samples, PSF of unit energy, each times its scale): '
+                  'brute-force cyclic sum of the O(1) pair times the product of the scales with a tolerance that scales the same way, both argument orders, energy product, scaled impulse at the origin and at the last sample'),
+        ScopeUnit('atf_scale', atf_scale_cases, run_atf_scale,
+                  f'apply_transfer_functions is linear in the object and in every transfer-function array: every shape in [1..{B}]^2 x lists {{[herm],[c_fr],[real,c_fx],[jitter_ft,pixel_ft]}} x shift x object scale in the same alphabet '
+                  '(x {1e-100, 1e-15, 1, 1e15, 1e100} for the scale of the leading array): dense object and last unit impulse against the scaled explicit-DFT reference'),
+        ScopeUnit('threshold', [{'n0': a, 'n1': b} for a, b in threshold_shapes(tier)], run_threshold,
+                  'blocking thresholds (NOT closed over the data dimension): shapes (n,1),(1,n) for n in {2^k+1, 2^k+2^(k-1)+3 : k=7..16}, (129,3),(3,130),(150,150),(181,182),(300,300),(257,1030) and (1030,1025) (> 2^20 elements)'
+                  + ('' if tier == 'quick' else ', (2^k+1,3) for k=8..14, (513,514),(1025,1025),(2049,515)') +
+                  ': a dense object convolved with a PSF of <= 6 weighted impulses (corners, origin, origin+1, last, last-1, just past half of the buffer) against the weighted sum of cyclic translations on EVERY element, both argument orders, '
+                  'energy product, impulse identity; MTF / PTF / OTF of that PSF and of single impulses at the first / last sample against the closed-form phase ramps on EVERY element; the same PSF as object through '
+                  '[real array, callable of fr] in both conventions against the closed-form spectrum inverted with numpy\'s own FFT; all-ones lists == identity (shapes of more than 2^18 elements: one call per routine, shifted convention only, no call-hygiene variants)'),
         ScopeUnit('conv_large', large_cases, run_conv_large,
                   'threshold sizes (NOT closed over the data dimension): axis lengths {11,12,13,16,17,19,23,26,31,32,33,34,37,64,65} in shapes (n,1),(1,n),(n,3) and (13,17),(16,13),(26,8): '
                   'impulse pairs whose sum wraps around the border (corners, last sample, origin, origin+1, origin+n//2) judged by the cyclic translation law; one dense and one non-negative pair '
